@@ -236,7 +236,7 @@ def run_suite(suite, prop, cases, driver_ok, stats, known, search_only=False):
                     stats["driver_errors"].append(f"{c.get('op')}: {model[i]['driver_error']}")
                     continue
                 stats["compared"] += 1
-                if canon(model[i]) != canon(r):
+                if canon(model[i]) != canon(suite.view(r)):
                     disagreements.append((c, r, model[i]))
     finally:
         suite.teardown()
@@ -460,7 +460,7 @@ def _model1(suite, case):
 
 
 def _disagrees(suite, case):
-    return canon(_impl1(suite, case)) != canon(_model1(suite, case))
+    return canon(suite.view(_impl1(suite, case))) != canon(_model1(suite, case))
 
 
 def do_replay(prop, P, path, known):
